@@ -13,6 +13,7 @@ import (
 	"os"
 	"path/filepath"
 	"strconv"
+	"sync"
 	"testing"
 
 	"go.minekube.com/gate/pkg/edition/bedrock/geyser"
@@ -41,6 +42,7 @@ type stats struct {
 	Truncated int   `json:"names_truncated"`
 	Uuids     int   `json:"uuids"`
 	Repeats   int   `json:"uuid_repeats"`
+	ConcUuids int   `json:"uuids_computed_concurrently"`
 	Samples   []any `json:"samples"`
 }
 
@@ -148,6 +150,52 @@ func TestTrace(t *testing.T) {
 		seen = append(seen, x)
 		uuidOf(x)
 	}
+	// concurrent logins: several goroutines derive UUIDs for different XUIDs at the same time
+	// (XUIDs of the sequential phase again, so equal XUIDs must give the UUIDs seen there)
+	workers := tracefmt.EnvInt("VERIF_UUID_WORKERS", 8)
+	per := tracefmt.EnvInt("VERIF_UUID_PER_WORKER", 20000)
+	type obs struct {
+		x      int64
+		u1, u2 [16]byte
+	}
+	var wg sync.WaitGroup
+	var cmu sync.Mutex
+	startc := make(chan struct{})
+	for wk := 0; wk < workers; wk++ {
+		xs := make([]int64, 6)
+		for k := range xs {
+			xs[k] = seen[rng.Intn(len(seen))]
+		}
+		wg.Add(1)
+		go func() {
+			defer wg.Done()
+			<-startc
+			// a tight loop; every DISTINCT (xuid, uuid, uuid) observation is logged afterwards
+			// (identical repetitions add nothing for the judge)
+			distinct := map[obs]struct{}{}
+			for k := 0; k < per; k++ {
+				x := xs[k%len(xs)]
+				d1 := &floodgate.BedrockData{Xuid: x, Username: "A"}
+				d2 := &floodgate.BedrockData{Xuid: x, Username: "B", Proxy: true}
+				u1, e1 := d1.JavaUuid()
+				u2, e2 := d2.JavaUuid()
+				if e1 != nil || e2 != nil {
+					continue
+				}
+				distinct[obs{x, u1, u2}] = struct{}{}
+			}
+			cmu.Lock()
+			defer cmu.Unlock()
+			for o := range distinct {
+				tw.Emit(tracefmt.Rec{"ev": "uuid", "xuid": tracefmt.Bytes([]byte(strconv.FormatInt(o.x, 10))),
+					"uuid": tracefmt.Bytes(o.u1[:]), "again": tracefmt.Bytes(o.u2[:]), "conc": true})
+				st.Uuids++
+			}
+			st.ConcUuids += per
+		}()
+	}
+	close(startc)
+	wg.Wait()
 	if err := tw.Close(); err != nil {
 		t.Fatal(err)
 	}
